@@ -1,6 +1,6 @@
-; obligation rt[o1b0l0s0]:parser.parseAndCodeExpr:before(andCodeExpr.run):assert[ctx]
+; obligation rt[o1b0l0s1]:parser.parseStateCodeExpr:before(stateCodeExpr.run):assert[ctx]
 ; clause: p.cur.pos == p.pt.position && len(p.cur.text) == 0
-; at rt.go:759
+; at rt.go:1070
 (set-option :produce-models true)
 (set-logic ALL)
 (declare-sort Str 0)
@@ -8,7 +8,7 @@
 (declare-datatypes ((Slice_Int 0)) (((mk_Slice_Int (arr_Slice_Int (Array Int Int)) (off_Slice_Int Int) (len_Slice_Int Int) (cap_Slice_Int Int)))))
 (declare-datatypes ((S_position 0)) (((mk_S_position (S_position_line Int) (S_position_col Int) (S_position_offset Int)))))
 (declare-datatypes ((S_savepoint 0)) (((mk_S_savepoint (S_savepoint_position S_position) (S_savepoint_rn Int) (S_savepoint_w Int)))))
-(declare-datatypes ((S_current 0)) (((mk_S_current (S_current_pos S_position) (S_current_text Slice_Int) (S_current_globalStore Int)))))
+(declare-datatypes ((S_current 0)) (((mk_S_current (S_current_pos S_position) (S_current_text Slice_Int) (S_current_state Int) (S_current_globalStore Int)))))
 (declare-datatypes ((Slice_Any 0)) (((mk_Slice_Any (arr_Slice_Any (Array Int Any)) (off_Slice_Any Int) (len_Slice_Any Int) (cap_Slice_Any Int)))))
 (declare-datatypes ((Slice_Str 0)) (((mk_Slice_Str (arr_Slice_Str (Array Int Str)) (off_Slice_Str Int) (len_Slice_Str Int) (cap_Slice_Str Int)))))
 (declare-fun typeOf (Any) Int)
@@ -33,6 +33,7 @@
 (declare-fun unbox_Int (Any) Int)
 (declare-fun sprintf_3 (Str Any Any Any) Str)
 (declare-fun D (Any Slice_Int Int Bool Int Any) Bool)
+(declare-fun CloneEq (Any Any) Bool)
 (declare-fun LitPre (Int Slice_Int Int Int Int) Bool)
 (declare-fun toLower (Int) Int)
 (declare-fun box_Slice_Int (Int Slice_Int) Any)
@@ -66,7 +67,7 @@
 (assert (= (runeOf str!3 4) 32))
 (assert (distinct str!0 str!1 str!2 str!3))
 (declare-const in_p Int)
-(declare-const in_and Int)
+(declare-const in_state Int)
 (declare-const H_parser_errs@pre (Array Int Int))
 (declare-const H_parser_Stats@pre (Array Int Int))
 (declare-const H_parser_rstack@pre (Array Int Slice_Int))
@@ -81,20 +82,26 @@
 (declare-const Mval_Str_Any@pre (Array Int (Array Str Any)))
 (declare-const H_parser_data@pre (Array Int Slice_Int))
 (declare-const H_parser_pt@pre (Array Int S_savepoint))
+(declare-const H_parser_cur@pre (Array Int S_current))
 (declare-const H_Stats_ExprCnt@pre (Array Int Int))
 (declare-const H_parser_maxExprCnt@pre (Array Int Int))
-(declare-const H_parser_cur@pre (Array Int S_current))
+(declare-const G_statePool@pre Int)
 (declare-const Mdom_storeDict@pre (Array Int (Array Str Bool)))
-(declare-const Mdom_storeDict!1 (Array Int (Array Str Bool)))
+(declare-const hv!1 (Array Str Bool))
+(declare-const Mdom_storeDict!2 (Array Int (Array Str Bool)))
 (declare-const Mval_storeDict@pre (Array Int (Array Str Any)))
-(declare-const Mval_storeDict!2 (Array Int (Array Str Any)))
-(declare-const Alloc!3 (Array Int Bool))
-(declare-const ret_andCodeExpr_run!4 Bool)
-(declare-const ret_andCodeExpr_run!5 Any)
+(declare-const hv!3 (Array Str Any))
+(declare-const Mval_storeDict!4 (Array Int (Array Str Any)))
+(declare-const hv!5 (Array Str Bool))
+(declare-const Mdom_storeDict!6 (Array Int (Array Str Bool)))
+(declare-const hv!7 (Array Str Any))
+(declare-const Mval_storeDict!8 (Array Int (Array Str Any)))
+(declare-const Alloc!9 (Array Int Bool))
+(declare-const ret_stateCodeExpr_run!10 Any)
 (declare-const P_Slice_Any@pre (Array Int Slice_Any))
-(declare-const hv!6 Slice_Any)
-(declare-const P_Slice_Any!7 (Array Int Slice_Any))
-(declare-const Alloc!8 (Array Int Bool))
+(declare-const hv!11 Slice_Any)
+(declare-const P_Slice_Any!12 (Array Int Slice_Any))
+(declare-const Alloc!13 (Array Int Bool))
 (declare-const H_parserError_Inner@pre (Array Int Any))
 (declare-const H_parserError_pos@pre (Array Int S_position))
 (declare-const H_parserError_prefix@pre (Array Int Str))
@@ -138,7 +145,6 @@
 (assert (forall ((a Str) (b Str)) (! (=> (and (sle a b) (sle b a)) (= a b)) :pattern ((sle a b) (sle b a)))))
 (assert (forall ((a Str) (b Str) (c Str)) (! (=> (and (sle a b) (sle b c)) (sle a c)) :pattern ((sle a b) (sle b c)))))
 (assert (forall ((s Slice_Int) (i Int)) (! (= (elem_Slice_Int s i) (select (arr_Slice_Int s) (+ (off_Slice_Int s) i))) :pattern ((elem_Slice_Int s i)))))
-(assert (forall ((s Slice_Int) (j Int)) (! (= (select (arr_Slice_Int s) j) (elem_Slice_Int s (- j (off_Slice_Int s)))) :pattern ((select (arr_Slice_Int s) j)))))
 (assert (forall ((d (Array Str Bool))) (! (>= (card_Str d) 0) :pattern ((card_Str d)))))
 (assert (= (card_Str ((as const (Array Str Bool)) false)) 0))
 (assert (forall ((d (Array Str Bool)) (k Str)) (! (=> (= (card_Str d) 0) (not (select d k))) :pattern ((card_Str d) (select d k)))))
@@ -146,7 +152,6 @@
 (assert (forall ((d (Array Str Bool)) (k Str)) (! (= (card_Str (store d k true)) (ite (select d k) (card_Str d) (+ (card_Str d) 1))) :pattern ((card_Str (store d k true))))))
 (assert (forall ((d (Array Str Bool)) (k Str)) (! (= (card_Str (store d k false)) (ite (select d k) (- (card_Str d) 1) (card_Str d))) :pattern ((card_Str (store d k false))))))
 (assert (forall ((s Slice_Any) (i Int)) (! (= (elem_Slice_Any s i) (select (arr_Slice_Any s) (+ (off_Slice_Any s) i))) :pattern ((elem_Slice_Any s i)))))
-(assert (forall ((s Slice_Any) (j Int)) (! (= (select (arr_Slice_Any s) j) (elem_Slice_Any s (- j (off_Slice_Any s)))) :pattern ((select (arr_Slice_Any s) j)))))
 (assert (forall ((t Int) (v Int)) (! (=> (> t 0) (= (typeOf (box_Int t v)) t)) :pattern ((box_Int t v)))))
 (assert (forall ((t Int) (v Int)) (! (=> (> t 0) (= (unbox_Int (box_Int t v)) v)) :pattern ((box_Int t v)))))
 (assert (forall ((t Int) (v Slice_Int)) (! (=> (> t 0) (= (typeOf (box_Slice_Int t v)) t)) :pattern ((box_Slice_Int t v)))))
@@ -180,14 +185,15 @@
 (assert (forall ((q_l Int) (q_d Slice_Int) (q_i Int) (q_ok Bool) (q_j Int) (q_v Any)) (! (=> (D (select H_labeledExpr_expr@pre q_l) q_d q_i q_ok q_j q_v) (D (box_Int 16 q_l) q_d q_i q_ok q_j q_v)) :pattern ((D (select H_labeledExpr_expr@pre q_l) q_d q_i q_ok q_j q_v))))) ; axiom label-intro
 (assert (forall ((q_a Int) (q_d Slice_Int) (q_i Int) (q_j Int) (q_v Any) (q_w Any)) (! (=> (D (select H_actionExpr_expr@pre q_a) q_d q_i true q_j q_v) (D (box_Int 17 q_a) q_d q_i true q_j q_w)) :pattern ((D (select H_actionExpr_expr@pre q_a) q_d q_i true q_j q_v) (D (box_Int 17 q_a) q_d q_i true q_j q_w))))) ; axiom action-ok
 (assert (forall ((q_a Int) (q_d Slice_Int) (q_i Int) (q_v Any)) (! (=> (D (select H_actionExpr_expr@pre q_a) q_d q_i false q_i q_v) (D (box_Int 17 q_a) q_d q_i false q_i nilAny)) :pattern ((D (select H_actionExpr_expr@pre q_a) q_d q_i false q_i q_v))))) ; axiom action-fail
-(assert (forall ((q_a Int) (q_d Slice_Int) (q_i Int) (q_ok Bool)) (! (D (box_Int 3 q_a) q_d q_i q_ok q_i nilAny) :pattern ((D (box_Int 3 q_a) q_d q_i q_ok q_i nilAny))))) ; axiom andcode
-(assert (forall ((q_a Int) (q_d Slice_Int) (q_i Int) (q_ok Bool)) (! (D (box_Int 18 q_a) q_d q_i q_ok q_i nilAny) :pattern ((D (box_Int 18 q_a) q_d q_i q_ok q_i nilAny))))) ; axiom notcode
-(assert (forall ((q_t Int) (q_d Slice_Int) (q_i Int) (q_ok Bool) (q_j Int) (q_v Any)) (! (D (box_Int 19 q_t) q_d q_i q_ok q_j q_v) :pattern ((D (box_Int 19 q_t) q_d q_i q_ok q_j q_v))))) ; axiom throw-any
-(assert (forall ((q_r Int) (q_d Slice_Int) (q_i Int) (q_ok Bool) (q_j Int) (q_v Any)) (! (D (box_Int 20 q_r) q_d q_i q_ok q_j q_v) :pattern ((D (box_Int 20 q_r) q_d q_i q_ok q_j q_v))))) ; axiom recovery-any
+(assert (forall ((q_a Int) (q_d Slice_Int) (q_i Int) (q_ok Bool)) (! (D (box_Int 18 q_a) q_d q_i q_ok q_i nilAny) :pattern ((D (box_Int 18 q_a) q_d q_i q_ok q_i nilAny))))) ; axiom andcode
+(assert (forall ((q_a Int) (q_d Slice_Int) (q_i Int) (q_ok Bool)) (! (D (box_Int 19 q_a) q_d q_i q_ok q_i nilAny) :pattern ((D (box_Int 19 q_a) q_d q_i q_ok q_i nilAny))))) ; axiom notcode
+(assert (forall ((q_a Int) (q_d Slice_Int) (q_i Int)) (! (D (box_Int 3 q_a) q_d q_i true q_i nilAny) :pattern ((D (box_Int 3 q_a) q_d q_i true q_i nilAny))))) ; axiom statecode
+(assert (forall ((q_t Int) (q_d Slice_Int) (q_i Int) (q_ok Bool) (q_j Int) (q_v Any)) (! (D (box_Int 20 q_t) q_d q_i q_ok q_j q_v) :pattern ((D (box_Int 20 q_t) q_d q_i q_ok q_j q_v))))) ; axiom throw-any
+(assert (forall ((q_r Int) (q_d Slice_Int) (q_i Int) (q_ok Bool) (q_j Int) (q_v Any)) (! (D (box_Int 21 q_r) q_d q_i q_ok q_j q_v) :pattern ((D (box_Int 21 q_r) q_d q_i q_ok q_j q_v))))) ; axiom recovery-any
 (assert (forall ((q_r Int) (q_d Slice_Int) (q_i Int) (q_ok Bool) (q_j Int) (q_v Any)) (! (=> (D (select H_rule_expr@pre q_r) q_d q_i q_ok q_j q_v) (DR q_r q_d q_i q_ok q_j q_v)) :pattern ((D (select H_rule_expr@pre q_r) q_d q_i q_ok q_j q_v))))) ; axiom rule-intro
-(assert (forall ((q_f Int) (q_r Int) (q_d Slice_Int) (q_i Int) (q_ok Bool) (q_j Int) (q_v Any)) (! (=> (and (and (DR q_r q_d q_i q_ok q_j q_v) (not (= q_r 0))) (= (select H_rule_name@pre q_r) (select H_ruleRefExpr_name@pre q_f))) (D (box_Int 21 q_f) q_d q_i q_ok q_j q_v)) :pattern ((DR q_r q_d q_i q_ok q_j q_v) (D (box_Int 21 q_f) q_d q_i q_ok q_j q_v))))) ; axiom ref-intro
-(assert (forall ((q_f Int) (q_d Slice_Int) (q_i Int)) (! (=> (not (defined (select H_ruleRefExpr_name@pre q_f))) (D (box_Int 21 q_f) q_d q_i false q_i nilAny)) :pattern ((D (box_Int 21 q_f) q_d q_i false q_i nilAny))))) ; axiom ref-undef
-(assert (forall ((q_e Any)) (! (= (IsNode q_e) (or (or (or (or (or (or (or (or (or (or (or (or (or (or (or (or (or (and (= (typeOf q_e) 17) (not (= (unbox_Int q_e) 0))) (and (= (typeOf q_e) 3) (not (= (unbox_Int q_e) 0)))) (and (= (typeOf q_e) 11) (not (= (unbox_Int q_e) 0)))) (and (= (typeOf q_e) 7) (not (= (unbox_Int q_e) 0)))) (and (= (typeOf q_e) 6) (not (= (unbox_Int q_e) 0)))) (and (= (typeOf q_e) 10) (not (= (unbox_Int q_e) 0)))) (and (= (typeOf q_e) 16) (not (= (unbox_Int q_e) 0)))) (and (= (typeOf q_e) 5) (not (= (unbox_Int q_e) 0)))) (and (= (typeOf q_e) 18) (not (= (unbox_Int q_e) 0)))) (and (= (typeOf q_e) 12) (not (= (unbox_Int q_e) 0)))) (and (= (typeOf q_e) 14) (not (= (unbox_Int q_e) 0)))) (and (= (typeOf q_e) 20) (not (= (unbox_Int q_e) 0)))) (and (= (typeOf q_e) 21) (not (= (unbox_Int q_e) 0)))) (and (= (typeOf q_e) 8) (not (= (unbox_Int q_e) 0)))) false) (and (= (typeOf q_e) 19) (not (= (unbox_Int q_e) 0)))) (and (= (typeOf q_e) 13) (not (= (unbox_Int q_e) 0)))) (and (= (typeOf q_e) 15) (not (= (unbox_Int q_e) 0))))) :pattern ((IsNode q_e))))) ; axiom node-def
+(assert (forall ((q_f Int) (q_r Int) (q_d Slice_Int) (q_i Int) (q_ok Bool) (q_j Int) (q_v Any)) (! (=> (and (and (DR q_r q_d q_i q_ok q_j q_v) (not (= q_r 0))) (= (select H_rule_name@pre q_r) (select H_ruleRefExpr_name@pre q_f))) (D (box_Int 22 q_f) q_d q_i q_ok q_j q_v)) :pattern ((DR q_r q_d q_i q_ok q_j q_v) (D (box_Int 22 q_f) q_d q_i q_ok q_j q_v))))) ; axiom ref-intro
+(assert (forall ((q_f Int) (q_d Slice_Int) (q_i Int)) (! (=> (not (defined (select H_ruleRefExpr_name@pre q_f))) (D (box_Int 22 q_f) q_d q_i false q_i nilAny)) :pattern ((D (box_Int 22 q_f) q_d q_i false q_i nilAny))))) ; axiom ref-undef
+(assert (forall ((q_e Any)) (! (= (IsNode q_e) (or (or (or (or (or (or (or (or (or (or (or (or (or (or (or (or (or (and (= (typeOf q_e) 17) (not (= (unbox_Int q_e) 0))) (and (= (typeOf q_e) 18) (not (= (unbox_Int q_e) 0)))) (and (= (typeOf q_e) 11) (not (= (unbox_Int q_e) 0)))) (and (= (typeOf q_e) 7) (not (= (unbox_Int q_e) 0)))) (and (= (typeOf q_e) 6) (not (= (unbox_Int q_e) 0)))) (and (= (typeOf q_e) 10) (not (= (unbox_Int q_e) 0)))) (and (= (typeOf q_e) 16) (not (= (unbox_Int q_e) 0)))) (and (= (typeOf q_e) 5) (not (= (unbox_Int q_e) 0)))) (and (= (typeOf q_e) 19) (not (= (unbox_Int q_e) 0)))) (and (= (typeOf q_e) 12) (not (= (unbox_Int q_e) 0)))) (and (= (typeOf q_e) 14) (not (= (unbox_Int q_e) 0)))) (and (= (typeOf q_e) 21) (not (= (unbox_Int q_e) 0)))) (and (= (typeOf q_e) 22) (not (= (unbox_Int q_e) 0)))) (and (= (typeOf q_e) 8) (not (= (unbox_Int q_e) 0)))) (and (= (typeOf q_e) 3) (not (= (unbox_Int q_e) 0)))) (and (= (typeOf q_e) 20) (not (= (unbox_Int q_e) 0)))) (and (= (typeOf q_e) 13) (not (= (unbox_Int q_e) 0)))) (and (= (typeOf q_e) 15) (not (= (unbox_Int q_e) 0))))) :pattern ((IsNode q_e))))) ; axiom node-def
 (assert (forall ((q_a Int)) (! (=> (not (= q_a 0)) (and (IsNode (select H_actionExpr_expr@pre q_a)) (not (= (select H_actionExpr_run@pre q_a) 0)))) :pattern ((select H_actionExpr_expr@pre q_a))))) ; axiom wf-action
 (assert (forall ((q_a Int)) (! (=> (not (= q_a 0)) (IsNode (select H_andExpr_expr@pre q_a))) :pattern ((select H_andExpr_expr@pre q_a))))) ; axiom wf-and
 (assert (forall ((q_a Int)) (! (=> (not (= q_a 0)) (IsNode (select H_notExpr_expr@pre q_a))) :pattern ((select H_notExpr_expr@pre q_a))))) ; axiom wf-not
@@ -201,6 +207,8 @@
 (assert (forall ((q_c Int) (q_k Int)) (! (=> (and (and (not (= q_c 0)) (<= 0 q_k)) (< q_k (len_Slice_Any (select H_choiceExpr_alternatives@pre q_c)))) (IsNode (elem_Slice_Any (select H_choiceExpr_alternatives@pre q_c) q_k))) :pattern ((elem_Slice_Any (select H_choiceExpr_alternatives@pre q_c) q_k))))) ; axiom wf-choice
 (assert (forall ((q_c Int)) (! (=> (not (= q_c 0)) (= (mod (len_Slice_Int (select H_charClassMatcher_ranges@pre q_c)) 2) 0)) :pattern ((select H_charClassMatcher_ranges@pre q_c))))) ; axiom wf-class
 (assert (forall ((q_r Int)) (! (=> (not (= q_r 0)) (IsNode (select H_rule_expr@pre q_r))) :pattern ((select H_rule_expr@pre q_r))))) ; axiom wf-rule
+(assert (forall ((q_a Any)) (! (CloneEq q_a q_a) :pattern ((CloneEq q_a q_a))))) ; axiom cloneeq-refl
+(assert (forall ((q_a Any) (q_b Any) (q_c Any)) (! (=> (and (CloneEq q_a q_b) (CloneEq q_b q_c)) (CloneEq q_a q_c)) :pattern ((CloneEq q_a q_b) (CloneEq q_b q_c))))) ; axiom cloneeq-trans
 (assert (forall ((q_b Slice_Int)) (! (and (=> (= (len_Slice_Int q_b) 0) (and (= (decR q_b) 65533) (= (decW q_b) 0))) (=> (> (len_Slice_Int q_b) 0) (and (and (<= 1 (decW q_b)) (<= (decW q_b) 4)) (<= (decW q_b) (len_Slice_Int q_b))))) :pattern ((decW q_b))))) ; axiom dec-eof
 (assert (forall ((q_a Any) (q_b Any) (q_c Any)) (! (> (slen (sprintf_3 str!1 q_a q_b q_c)) 0) :pattern ((sprintf_3 str!1 q_a q_b q_c))))) ; axiom sprintf-pos-nonempty
 (assert (forall ((q_b Slice_Int)) (! (and (<= 0 (decR q_b)) (<= (decR q_b) 1114111)) :pattern ((decR q_b))))) ; axiom dec-range
@@ -218,8 +226,8 @@
 (assert (forall ((r Int)) (! (and (<= 0 (len_Slice_Int (select H_charClassMatcher_classes@pre r))) (<= (len_Slice_Int (select H_charClassMatcher_classes@pre r)) (cap_Slice_Int (select H_charClassMatcher_classes@pre r))) (<= 0 (off_Slice_Int (select H_charClassMatcher_classes@pre r)))) :pattern ((select H_charClassMatcher_classes@pre r)))))
 (assert (forall ((r Int)) (! (and (<= 0 (len_Slice_Any (select H_seqExpr_exprs@pre r))) (<= (len_Slice_Any (select H_seqExpr_exprs@pre r)) (cap_Slice_Any (select H_seqExpr_exprs@pre r))) (<= 0 (off_Slice_Any (select H_seqExpr_exprs@pre r)))) :pattern ((select H_seqExpr_exprs@pre r)))))
 (assert (forall ((r Int)) (! (and (<= 0 (len_Slice_Any (select H_choiceExpr_alternatives@pre r))) (<= (len_Slice_Any (select H_choiceExpr_alternatives@pre r)) (cap_Slice_Any (select H_choiceExpr_alternatives@pre r))) (<= 0 (off_Slice_Any (select H_choiceExpr_alternatives@pre r)))) :pattern ((select H_choiceExpr_alternatives@pre r)))))
-(assert (and (and (and (and (and (and (and (and (and (and (and (and (not (= in_p 0)) (not (= (select H_parser_errs@pre in_p) 0))) (not (= (select H_parser_Stats@pre in_p) 0))) (forall ((q_k Int)) (=> (and (<= 0 q_k) (< q_k (len_Slice_Int (select H_parser_rstack@pre in_p)))) (not (= (elem_Slice_Int (select H_parser_rstack@pre in_p) q_k) 0))))) (forall ((q_k Int)) (=> (and (<= 0 q_k) (< q_k (len_Slice_Int (select H_parser_vstack@pre in_p)))) (not (= (elem_Slice_Int (select H_parser_vstack@pre in_p) q_k) 0))))) (forall ((q_k Int)) (=> (and (<= 0 q_k) (< q_k (len_Slice_Int (select H_parser_recoveryStack@pre in_p)))) (not (= (elem_Slice_Int (select H_parser_recoveryStack@pre in_p) q_k) 0))))) (forall ((q_n Str)) (! (and (= (and (not (= (select H_parser_rules@pre in_p) 0)) (select (select Mdom_Str_Int@pre (select H_parser_rules@pre in_p)) q_n)) (defined q_n)) (=> (and (not (= (select H_parser_rules@pre in_p) 0)) (select (select Mdom_Str_Int@pre (select H_parser_rules@pre in_p)) q_n)) (and (not (= (select (select Mval_Str_Int@pre (select H_parser_rules@pre in_p)) q_n) 0)) (= (select H_rule_name@pre (select (select Mval_Str_Int@pre (select H_parser_rules@pre in_p)) q_n)) q_n)))) :pattern ((select (select Mdom_Str_Int@pre (select H_parser_rules@pre in_p)) q_n))))) true) (forall ((q_k Int)) (! (=> (and (<= 0 q_k) (< q_k (cap_Slice_Int (select H_parser_vstack@pre in_p)))) (or (= (elem_Slice_Int (select H_parser_vstack@pre in_p) q_k) 0) (select Alloc@pre (elem_Slice_Int (select H_parser_vstack@pre in_p) q_k)))) :pattern ((elem_Slice_Int (select H_parser_vstack@pre in_p) q_k))))) (and (and (forall ((q_j Int)) (! (=> (and (<= 0 q_j) (< q_j (len_Slice_Int (select H_parser_recoveryStack@pre in_p)))) (select Alloc@pre (elem_Slice_Int (select H_parser_recoveryStack@pre in_p) q_j))) :pattern ((elem_Slice_Int (select H_parser_recoveryStack@pre in_p) q_j)))) (forall ((q_j Int) (q_k Int)) (! (=> (and (and (and (<= 0 q_j) (< q_j (len_Slice_Int (select H_parser_recoveryStack@pre in_p)))) (<= 0 q_k)) (< q_k (cap_Slice_Int (select H_parser_vstack@pre in_p)))) (not (= (elem_Slice_Int (select H_parser_recoveryStack@pre in_p) q_j) (elem_Slice_Int (select H_parser_vstack@pre in_p) q_k)))) :pattern ((elem_Slice_Int (select H_parser_recoveryStack@pre in_p) q_j) (elem_Slice_Int (select H_parser_vstack@pre in_p) q_k))))) (forall ((q_j Int) (q_l Str)) (! (=> (and (and (<= 0 q_j) (< q_j (len_Slice_Int (select H_parser_recoveryStack@pre in_p)))) (and (not (= (elem_Slice_Int (select H_parser_recoveryStack@pre in_p) q_j) 0)) (select (select Mdom_Str_Any@pre (elem_Slice_Int (select H_parser_recoveryStack@pre in_p) q_j)) q_l))) (IsNode (select (select Mval_Str_Any@pre (elem_Slice_Int (select H_parser_recoveryStack@pre in_p) q_j)) q_l))) :pattern ((select (select Mdom_Str_Any@pre (elem_Slice_Int (select H_parser_recoveryStack@pre in_p) q_j)) q_l)))))) (and (and (and (and (and (and (bnd (select H_parser_data@pre in_p) (S_position_offset (S_savepoint_position (select H_parser_pt@pre in_p)))) (<= 0 (S_position_offset (S_savepoint_position (select H_parser_pt@pre in_p))))) (<= (S_position_offset (S_savepoint_position (select H_parser_pt@pre in_p))) (len_Slice_Int (select H_parser_data@pre in_p)))) (= (S_savepoint_rn (select H_parser_pt@pre in_p)) (decR (mk_Slice_Int (arr_Slice_Int (select H_parser_data@pre in_p)) (+ (off_Slice_Int (select H_parser_data@pre in_p)) (S_position_offset (S_savepoint_position (select H_parser_pt@pre in_p)))) (- (len_Slice_Int (select H_parser_data@pre in_p)) (S_position_offset (S_savepoint_position (select H_parser_pt@pre in_p)))) (- (cap_Slice_Int (select H_parser_data@pre in_p)) (S_position_offset (S_savepoint_position (select H_parser_pt@pre in_p)))))))) (= (S_savepoint_w (select H_parser_pt@pre in_p)) (decW (mk_Slice_Int (arr_Slice_Int (select H_parser_data@pre in_p)) (+ (off_Slice_Int (select H_parser_data@pre in_p)) (S_position_offset (S_savepoint_position (select H_parser_pt@pre in_p)))) (- (len_Slice_Int (select H_parser_data@pre in_p)) (S_position_offset (S_savepoint_position (select H_parser_pt@pre in_p)))) (- (cap_Slice_Int (select H_parser_data@pre in_p)) (S_position_offset (S_savepoint_position (select H_parser_pt@pre in_p)))))))) (= (S_position_line (S_savepoint_position (select H_parser_pt@pre in_p))) (lineAt (select H_parser_data@pre in_p) (S_position_offset (S_savepoint_position (select H_parser_pt@pre in_p)))))) (= (S_position_col (S_savepoint_position (select H_parser_pt@pre in_p))) (colAt (select H_parser_data@pre in_p) (S_position_offset (S_savepoint_position (select H_parser_pt@pre in_p))))))) (and (>= (len_Slice_Int (select H_parser_vstack@pre in_p)) 1) (>= (len_Slice_Int (select H_parser_rstack@pre in_p)) 1))) (not (= in_and 0))))
+(assert (and (and (and (and (and (and (and (and (and (and (and (and (and (not (= in_p 0)) (not (= (select H_parser_errs@pre in_p) 0))) (not (= (select H_parser_Stats@pre in_p) 0))) (forall ((q_k Int)) (=> (and (<= 0 q_k) (< q_k (len_Slice_Int (select H_parser_rstack@pre in_p)))) (not (= (elem_Slice_Int (select H_parser_rstack@pre in_p) q_k) 0))))) (forall ((q_k Int)) (=> (and (<= 0 q_k) (< q_k (len_Slice_Int (select H_parser_vstack@pre in_p)))) (not (= (elem_Slice_Int (select H_parser_vstack@pre in_p) q_k) 0))))) (forall ((q_k Int)) (=> (and (<= 0 q_k) (< q_k (len_Slice_Int (select H_parser_recoveryStack@pre in_p)))) (not (= (elem_Slice_Int (select H_parser_recoveryStack@pre in_p) q_k) 0))))) (forall ((q_n Str)) (! (and (= (and (not (= (select H_parser_rules@pre in_p) 0)) (select (select Mdom_Str_Int@pre (select H_parser_rules@pre in_p)) q_n)) (defined q_n)) (=> (and (not (= (select H_parser_rules@pre in_p) 0)) (select (select Mdom_Str_Int@pre (select H_parser_rules@pre in_p)) q_n)) (and (not (= (select (select Mval_Str_Int@pre (select H_parser_rules@pre in_p)) q_n) 0)) (= (select H_rule_name@pre (select (select Mval_Str_Int@pre (select H_parser_rules@pre in_p)) q_n)) q_n)))) :pattern ((select (select Mdom_Str_Int@pre (select H_parser_rules@pre in_p)) q_n))))) true) (forall ((q_k Int)) (! (=> (and (<= 0 q_k) (< q_k (cap_Slice_Int (select H_parser_vstack@pre in_p)))) (or (= (elem_Slice_Int (select H_parser_vstack@pre in_p) q_k) 0) (select Alloc@pre (elem_Slice_Int (select H_parser_vstack@pre in_p) q_k)))) :pattern ((elem_Slice_Int (select H_parser_vstack@pre in_p) q_k))))) (and (and (forall ((q_j Int)) (! (=> (and (<= 0 q_j) (< q_j (len_Slice_Int (select H_parser_recoveryStack@pre in_p)))) (select Alloc@pre (elem_Slice_Int (select H_parser_recoveryStack@pre in_p) q_j))) :pattern ((elem_Slice_Int (select H_parser_recoveryStack@pre in_p) q_j)))) (forall ((q_j Int) (q_k Int)) (! (=> (and (and (and (<= 0 q_j) (< q_j (len_Slice_Int (select H_parser_recoveryStack@pre in_p)))) (<= 0 q_k)) (< q_k (cap_Slice_Int (select H_parser_vstack@pre in_p)))) (not (= (elem_Slice_Int (select H_parser_recoveryStack@pre in_p) q_j) (elem_Slice_Int (select H_parser_vstack@pre in_p) q_k)))) :pattern ((elem_Slice_Int (select H_parser_recoveryStack@pre in_p) q_j) (elem_Slice_Int (select H_parser_vstack@pre in_p) q_k))))) (forall ((q_j Int) (q_l Str)) (! (=> (and (and (<= 0 q_j) (< q_j (len_Slice_Int (select H_parser_recoveryStack@pre in_p)))) (and (not (= (elem_Slice_Int (select H_parser_recoveryStack@pre in_p) q_j) 0)) (select (select Mdom_Str_Any@pre (elem_Slice_Int (select H_parser_recoveryStack@pre in_p) q_j)) q_l))) (IsNode (select (select Mval_Str_Any@pre (elem_Slice_Int (select H_parser_recoveryStack@pre in_p) q_j)) q_l))) :pattern ((select (select Mdom_Str_Any@pre (elem_Slice_Int (select H_parser_recoveryStack@pre in_p) q_j)) q_l)))))) (and (and (and (and (and (and (bnd (select H_parser_data@pre in_p) (S_position_offset (S_savepoint_position (select H_parser_pt@pre in_p)))) (<= 0 (S_position_offset (S_savepoint_position (select H_parser_pt@pre in_p))))) (<= (S_position_offset (S_savepoint_position (select H_parser_pt@pre in_p))) (len_Slice_Int (select H_parser_data@pre in_p)))) (= (S_savepoint_rn (select H_parser_pt@pre in_p)) (decR (mk_Slice_Int (arr_Slice_Int (select H_parser_data@pre in_p)) (+ (off_Slice_Int (select H_parser_data@pre in_p)) (S_position_offset (S_savepoint_position (select H_parser_pt@pre in_p)))) (- (len_Slice_Int (select H_parser_data@pre in_p)) (S_position_offset (S_savepoint_position (select H_parser_pt@pre in_p)))) (- (cap_Slice_Int (select H_parser_data@pre in_p)) (S_position_offset (S_savepoint_position (select H_parser_pt@pre in_p)))))))) (= (S_savepoint_w (select H_parser_pt@pre in_p)) (decW (mk_Slice_Int (arr_Slice_Int (select H_parser_data@pre in_p)) (+ (off_Slice_Int (select H_parser_data@pre in_p)) (S_position_offset (S_savepoint_position (select H_parser_pt@pre in_p)))) (- (len_Slice_Int (select H_parser_data@pre in_p)) (S_position_offset (S_savepoint_position (select H_parser_pt@pre in_p)))) (- (cap_Slice_Int (select H_parser_data@pre in_p)) (S_position_offset (S_savepoint_position (select H_parser_pt@pre in_p)))))))) (= (S_position_line (S_savepoint_position (select H_parser_pt@pre in_p))) (lineAt (select H_parser_data@pre in_p) (S_position_offset (S_savepoint_position (select H_parser_pt@pre in_p)))))) (= (S_position_col (S_savepoint_position (select H_parser_pt@pre in_p))) (colAt (select H_parser_data@pre in_p) (S_position_offset (S_savepoint_position (select H_parser_pt@pre in_p))))))) (and (and (and (and (not (= (S_current_state (select H_parser_cur@pre in_p)) 0)) (select Alloc@pre (S_current_state (select H_parser_cur@pre in_p)))) (not (= (S_current_globalStore (select H_parser_cur@pre in_p)) 0))) (select Alloc@pre (S_current_globalStore (select H_parser_cur@pre in_p)))) (not (= (S_current_state (select H_parser_cur@pre in_p)) (S_current_globalStore (select H_parser_cur@pre in_p)))))) (and (>= (len_Slice_Int (select H_parser_vstack@pre in_p)) 1) (>= (len_Slice_Int (select H_parser_rstack@pre in_p)) 1))) (not (= in_state 0))))
 (assert (<= (select H_Stats_ExprCnt@pre (select H_parser_Stats@pre in_p)) (select H_parser_maxExprCnt@pre in_p)))
 (assert (not (and (= (S_current_pos (select H_parser_cur@pre in_p)) (S_savepoint_position (select H_parser_pt@pre in_p))) (= (len_Slice_Int (S_current_text (select H_parser_cur@pre in_p))) 0))))
 (check-sat)
-(get-value (in_p in_and))
+(get-value (in_p in_state))
